@@ -49,6 +49,12 @@ var sharedEnv types.EnvType
 func fullEnv() types.EnvType {
 	if sharedEnv == nil {
 		sharedEnv = box.FullEnv()
+		// an embedder's own definitions whose names look like Go-constructor hooks (new-<type>) but are not Go functions
+		for _, d := range []string{"(def new-point (fn (x y) [x y]))", "(defmacro new-twice (fn (x) x))", "(def new-limit 10)", "(def new-nothing nil)", "(def new-vec [1])", "(def new-str \"s\")", "(def new-kw :k)", "(def new-map {:a 1})"} {
+			if r := box.ReadEval(context.Background(), d, sharedEnv); r.Err != nil || r.Panicked {
+				panic(fmt.Sprint(r.Err, r.PanicVal))
+			}
+		}
 	}
 	return sharedEnv
 }
